@@ -163,7 +163,12 @@ def run(ch, tier):
     plain = Plain(a)
     q = Q()
     a.it.attach(plain)
-    a.it.bind_property_statechart(RECORDER, interpreter_klass=lambda sc, clock: Interpreter(sc, clock=clock, initial_context={'Q': q}))
+    if cs.flag(1, 4):
+        # deprecated but supported entry point: an already built interpreter is handed over and re-clocked
+        res.stats['property_bound_through_deprecated_interpreter_argument'] += 1
+        a.it.bind_property_statechart(Interpreter(RECORDER, initial_context={'Q': q}))
+    else:
+        a.it.bind_property_statechart(RECORDER, interpreter_klass=lambda sc, clock: Interpreter(sc, clock=clock, initial_context={'Q': q}))
     sigs = []
     pos = 0
     for r in standard_ops(a, ch, tier, delays=True, lo=3, hi=14 if tier == 'quick' else 25):
